@@ -257,6 +257,258 @@ theorem ginv_init (d : St) (bl : Nat) (h : Helper) (hbl : 2 ≤ bl) :
       show 1 < bl; omega
   · rw [Array.getElem_replicate]; exact ⟨rfl, rfl⟩
 
+/-! ## 3. `setFailOut` writes in-range values -/
+
+/-- All FAIL values are in range and all output positions at most `M`. -/
+def FOB (M : Nat) (s : Array St) : Prop :=
+  ∀ i (h : i < s.size), (s[i]).fail < s.size ∧ (s[i]).opos ≤ M
+
+theorem setSt_eq {s s' : Array St} {i : Nat} {f : St → St} (e : setSt s i f = .ok s') :
+    i < s.size ∧ s' = s.modify i f := by
+  unfold setSt at e
+  split at e
+  · rename_i h
+    simp only [Except.ok.injEq] at e
+    exact ⟨h, e.symm⟩
+  · cases e
+
+theorem setFailOut_bounds (v : Variant) (nfa : Nfa V) (M : Nat)
+    (hop : ∀ u, nfa.out.opos.getD u 0 ≤ M) :
+    ∀ (L : List (List Nat)) (lay lay' : Lay), setFailOut v nfa L lay = .ok lay' →
+      1 < lay.states.size → (∀ w, lay.idx.getD w deadIdx < lay.states.size) →
+      FOB M lay.states → lay'.states.size = lay.states.size ∧ FOB M lay'.states := by
+  intro L
+  induction L with
+  | nil =>
+    intro lay lay' e _ _ hf
+    unfold setFailOut at e
+    simp only [Except.ok.injEq] at e; subst e
+    exact ⟨rfl, hf⟩
+  | cons u rest ih =>
+    intro lay lay' e h1 hidx hf
+    unfold setFailOut at e
+    simp only at e
+    split at e
+    · cases e
+    · split at e
+      · cases e
+      · rename_i s1 es
+        obtain ⟨ilt, rfl⟩ := setSt_eq es
+        have hfail : (match nfa.fail.get u with
+            | .dead => deadIdx
+            | .node w => lay.idx.getD w deadIdx) < lay.states.size := by
+          split
+          · exact h1
+          · exact hidx _
+        have hf1 : FOB M (lay.states.modify (lay.idx.getD u deadIdx) fun s =>
+            { s with opos := nfa.out.opos.getD u 0,
+                     fail := match nfa.fail.get u with
+                       | .dead => deadIdx
+                       | .node w => lay.idx.getD w deadIdx }) := by
+          intro i hi
+          simp only [Array.size_modify] at hi ⊢
+          rw [Array.getElem_modify]
+          split
+          · exact ⟨hfail, hop u⟩
+          · exact hf i hi
+        obtain ⟨r1, r2⟩ := ih _ _ e (by simpa using h1) (by simpa using hidx) hf1
+        refine ⟨?_, r2⟩
+        rw [r1]; simp
+
+/-! ## 4. Assembling `boundsInv` -/
+
+theorem isPow2_two_pow (n : Nat) : isPow2 (2 ^ n) = true := by
+  have := (Nat.ne_zero_and_sub_one_eq_zero_iff_isPowerOfTwo (n := 2 ^ n)).2 ⟨n, rfl⟩
+  simp [isPow2, this.2]
+
+theorem boundsInv_intro (da : DA V) (n k : Nat) (hbl : da.blockLen = 2 ^ n) (hk : 0 < k)
+    (hsz : da.states.size = k * 2 ^ n)
+    (hst : ∀ i (h : i < da.states.size), (da.states[i]).base < da.states.size ∧
+      (da.states[i]).fail < da.states.size ∧ (da.states[i]).opos ≤ da.outputs.size)
+    (hout : ∀ j (h : j < da.outputs.size), (da.outputs[j]).parent ≤ j)
+    (hmap : da.variant = .charwise → ∀ c ∈ da.mapTable, c = invalidCode ∨ c < da.blockLen) :
+    da.boundsInv = true := by
+  simp only [DA.boundsInv, Bool.and_eq_true, bne_iff_ne, ne_eq, beq_iff_eq]
+  refine ⟨⟨⟨⟨⟨?_, ?_⟩, ?_⟩, ?_⟩, ?_⟩, ?_⟩
+  · have := Nat.two_pow_pos n
+    have := Nat.mul_pos hk this
+    omega
+  · rw [hbl]; exact isPow2_two_pow n
+  · rw [hbl, hsz]; exact Nat.mul_mod_left ..
+  · rw [Array.all_eq_true]
+    intro i h
+    simpa [and_assoc] using hst i h
+  · rw [List.all_eq_true]
+    rintro ⟨o, j⟩ hm
+    rw [List.mem_zipIdx_iff_getElem?] at hm
+    simp only [Array.getElem?_toList] at hm
+    obtain ⟨hj, rfl⟩ := Array.getElem?_eq_some_iff.1 hm
+    simpa using hout j hj
+  · cases hv : da.variant with
+    | bytewise => rfl
+    | charwise =>
+      simp only
+      rw [Array.all_eq_true_iff_forall_mem]
+      intro c hc
+      rcases hmap hv c hc with h | h
+      · simp [h]
+      · simp [h]
+
+/-- What `boundsInv` says about the element array. -/
+structure LayoutBounds (BL M : Nat) (states : Array St) : Prop where
+  size : ∃ k, 0 < k ∧ states.size = k * BL
+  elems : ∀ i (h : i < states.size), (states[i]).base < states.size ∧
+    (states[i]).fail < states.size ∧ (states[i]).opos ≤ M
+
+theorem gs_eq {s : Array St} {j : Nat} (h : j < s.size) : LayB.gs s j = s[j] := by
+  simp [LayB.gs, h]
+
+theorem gd_eq {s : Array St} {j : Nat} (h : j < s.size) : LayC.gd s j = s[j] := by
+  simp [LayC.gd, h]
+
+/-! ### Byte-wise -/
+
+theorem layoutBounds_bytewise (cfg : Cfg) (m : Mapper) (t : Trie V) (nfa : Nfa V)
+    (states : Array St) (hb : buildLayout .bytewise cfg m t nfa = .ok states) (hsort : t.Sorted)
+    (hbytes : ∀ u, t.hasNode u = true → ∀ c ∈ u, c < 256) (ho : OutOk nfa.out) :
+    LayoutBounds 256 nfa.out.outs.size states := by
+  unfold buildLayout at hb
+  simp only at hb
+  split at hb
+  · cases hb
+  rename_i h0 e0
+  split at hb
+  · cases hb
+  rename_i h1 e1
+  split at hb
+  · cases hb
+  rename_i h2 e2
+  split at hb
+  · cases hb
+  rename_i h3 e3
+  split at hb
+  · cases hb
+  rename_i lay1 eloop
+  split at hb
+  · cases hb
+  rename_i lay2 efo
+  have inv0 := LayB.init_inv t e0 e1 e2 e3
+  have inv0' : LayB.Inv t [] [[]]
+      (LayB.ixOf ⟨Array.replicate 256 stDefaultB, h3,
+        ({} : Std.HashMap (List Nat) Nat).insert [] 0⟩)
+      (LayB.gs (Array.replicate 256 stDefaultB)) (Array.replicate 256 stDefaultB).size h3 := by
+    rw [Array.size_replicate]; exact inv0
+  obtain ⟨done, inv1⟩ := LayB.layoutLoop_inv hsort hbytes _ _ _ _ lay1 inv0' eloop
+  have G0 : GInv (stDefault .bytewise) ⟨Array.replicate 256 stDefaultB, h3,
+      ({} : Std.HashMap (List Nat) Nat).insert [] rootIdx⟩ :=
+    ginv_init stDefaultB 256 h3 (by decide)
+  have G1 := layoutLoop_frame .bytewise m t _ _ _ _ eloop G0
+  have F1 : FOB nfa.out.outs.size lay1.states := by
+    intro i hi
+    obtain ⟨a, b⟩ := G1.fo i hi
+    rw [a, b]
+    have := G1.two
+    exact ⟨by show 0 < _; omega, Nat.zero_le _⟩
+  obtain ⟨_, r2, r3, r4, _, _⟩ := LayB.setFailOut_spec nfa _ _ _ efo
+  obtain ⟨b1, b2⟩ := setFailOut_bounds .bytewise nfa _ ho.1 _ _ _ efo G1.two G1.idx F1
+  have inv2 : LayB.Inv t done [] (LayB.ixOf lay1) (LayB.gs lay2.states) lay2.states.size
+      lay2.h := by
+    rw [r2, r3]
+    exact inv1.congr (fun j => (r4 j).1) (fun j _ => (r4 j).2) (fun j _ => (r4 j).2)
+  have hA : lay2.h.activeStart ≤ lay2.h.numBlocks := by
+    unfold Helper.activeStart; omega
+  obtain ⟨q1, q2, _, q4⟩ := LayB.sanitiseBlocks_spec hbytes _ _ _ _ inv2 (Nat.le_refl _)
+    (by omega) (fun j lo hi => by omega) hb
+  rw [← q1] at q2
+  refine ⟨⟨lay2.h.numBlocks, q2.nbpos, q2.size⟩, fun i hi => ?_⟩
+  have hi2 : i < lay2.states.size := by omega
+  have e := q4 i
+  rw [gs_eq hi, gs_eq hi2] at e
+  refine ⟨?_, ?_, ?_⟩
+  · by_cases hb0 : (LayB.gs states i).base = 0
+    · rw [← gs_eq hi, hb0]; omega
+    · obtain ⟨u, hu, rfl⟩ := q2.base0 i hb0
+      rw [← gs_eq hi]; exact (q2.baseK u hu).2.1
+  · rw [e.2.1, q1]; exact (b2 i hi2).1
+  · rw [e.2.2]; exact (b2 i hi2).2
+
+/-! ### Char-wise -/
+
+theorem base_lt_charwise {m : Mapper} {t : Trie V} {BL n : Nat} {lay : Lay} (hpow : BL = 2 ^ n)
+    (hα : m.alphaSize ≤ BL) (hm : LayC.MapperOk m) (I : LayC.Inv m t BL lay []) (i : Nat) :
+    (LayC.gd lay.states i).base < lay.states.size := by
+  have hpos : 0 < lay.states.size := by
+    have := I.ixLt [] I.hasRoot; omega
+  have hns : ∀ u : List Nat, u ∉ ([] : List (List Nat)) := fun u => by simp
+  by_cases hex : ∃ u, LayC.has lay u ∧ LayC.ix lay u = i
+  · obtain ⟨u, hu, rfl⟩ := hex
+    by_cases hk : ∃ c, t.hasNode (u ++ [c]) = true
+    · obtain ⟨c, hc⟩ := hk
+      obtain ⟨_, k, hk, hix⟩ := I.baseSome u hu (hns u) c hc
+      have h1 := I.ixLt _ (I.kids u hu (hns u) c hc)
+      have hkBL : k < 2 ^ n := hpow ▸ Nat.lt_of_lt_of_le (hm.1 c k hk) hα
+      rw [hix, I.size, hpow] at h1
+      rw [I.size, hpow]
+      exact (LayC.xor_lt_iff hkBL).1 h1
+    · rw [I.baseNone u hu (hns u) (fun c => by
+        cases h : t.hasNode (u ++ [c]) with
+        | false => rfl
+        | true => exact absurd ⟨c, h⟩ hk)]
+      exact hpos
+  · rw [I.baseD i (fun u hu _ e => hex ⟨u, hu, e⟩)]
+    exact hpos
+
+theorem layoutBounds_charwise (cfg : Cfg) (m : Mapper) (t : Trie V) (nfa : Nfa V)
+    (states : Array St) (hb : buildLayout .charwise cfg m t nfa = .ok states) (hsort : t.Sorted)
+    (hm : LayC.MapperOk m) (ho : OutOk nfa.out) :
+    LayoutBounds (max 2 (Nat.nextPowerOfTwo m.alphaSize)) nfa.out.outs.size states := by
+  unfold buildLayout at hb
+  simp only at hb
+  split at hb
+  · cases hb
+  rename_i h0 e0
+  split at hb
+  · cases hb
+  rename_i h1 e1
+  split at hb
+  · cases hb
+  rename_i h2 e2
+  split at hb
+  · cases hb
+  rename_i h3 e3
+  split at hb
+  · cases hb
+  rename_i lay1 el
+  split at hb
+  · cases hb
+  rename_i lay2 ef
+  simp only [Except.ok.injEq] at hb
+  subst hb
+  obtain ⟨⟨n, hpow⟩, hBL, hα⟩ := LayC.blockLen_facts m.alphaSize
+  have I0 := LayC.inv_init (m := m) (t := t) e0 e1 e2 e3
+  have I := LayC.layoutLoop_inv hBL hα hm hsort _ _ _ _ I0 el
+  have G0 : GInv (stDefault .charwise) ⟨Array.replicate (max 2 (Nat.nextPowerOfTwo m.alphaSize))
+      stDefaultC, h3, ({} : Std.HashMap (List Nat) Nat).insert [] rootIdx⟩ :=
+    ginv_init stDefaultC _ h3 hBL
+  have G1 := layoutLoop_frame .charwise m t _ _ _ _ el G0
+  have F1 : FOB nfa.out.outs.size lay1.states := by
+    intro i hi
+    obtain ⟨a, b⟩ := G1.fo i hi
+    rw [a, b]
+    have := G1.two
+    exact ⟨by show 1 < _; omega, Nat.zero_le _⟩
+  obtain ⟨_, c2, c3, _, _⟩ := LayC.setFailOut_spec nfa _ _ _ ef
+  obtain ⟨_, b2⟩ := setFailOut_bounds .charwise nfa _ ho.1 _ _ _ ef G1.two G1.idx F1
+  have hnb : 0 < lay1.h.numBlocks := by
+    have h0 := I.ixLt [] I.hasRoot
+    rw [I.size] at h0
+    rcases Nat.eq_zero_or_pos lay1.h.numBlocks with h1 | h1
+    · rw [h1, Nat.zero_mul] at h0; omega
+    · exact h1
+  refine ⟨⟨lay1.h.numBlocks, hnb, c2.trans I.size⟩, fun i hi => ⟨?_, (b2 i hi).1, (b2 i hi).2⟩⟩
+  rw [← gd_eq hi, (c3 i).1, c2]
+  exact base_lt_charwise hpow hα hm I i
+
 end Daac
-#print axioms Daac.layoutLoop_frame
-#print axioms Daac.ginv_init
+#print axioms Daac.layoutBounds_bytewise
+#print axioms Daac.layoutBounds_charwise
